@@ -4,7 +4,7 @@ evaluate(world, run) -> (violations, probes, observations)
 A violation is a dict: property, invariant, signature, exec (index), detail, observed, expected.
 """
 from cs_util import *  # noqa: F401,F403
-from cs_world import file_class, phase_of
+from cs_world import file_class, phase_of, DEFAULT_TIMEOUT
 
 SDK_FILES = ("sdk/Cargo.toml", "sdk/src/lib.rs")
 AW_FILES = ("sdk/Cargo.toml", "sdk/src/lib.rs", "Cargo.toml")  # what AppWriter persists
@@ -57,6 +57,9 @@ def evaluate(world, run):
         fired = ex["fault_fired"]
         relaxed = faulted or ex["post_fault"]  # fault / crash / unwritable-output arms
         mode = step["mode"]
+        # the step is set up so that the PERSIST phase fails (e.g. an unparsable SDK manifest on disk):
+        # termination, clean exit and failure atomicity of the SDK apply; no reference verdict/bytes do
+        expect_fail = step.get("expect_fail")
         before, after = ex["before"], ex["after"]
         code, sig = ex["exit"], ex["signal"]
 
@@ -81,7 +84,7 @@ def evaluate(world, run):
         # 1. termination
         if ex["timed_out"]:
             viol("C09", "terminates", "wall-clock-timeout", ex,
-                 f"killed after {ex['wall_s']} s wall-clock (limit {step.get('timeout', 600)} s)")
+                 f"killed after {ex['wall_s']} s wall-clock (limit {step.get('timeout', DEFAULT_TIMEOUT)} s)")
             continue
         if not relaxed:
             # 2. clean exit
@@ -93,12 +96,22 @@ def evaluate(world, run):
                 viol("C09", "clean-exit", "panic-on-stderr", ex,
                      "stderr contains a panic report: " + _first_line_with(ex["stderr"], "panicked"))
             # 3. failure atomicity
+            persist_failed = "Failed to persist the generated code to disk" in ex["stderr"]
+            if expect_fail:
+                probe("persist_phase_failure" if (code == 1 and persist_failed) else f"expect_fail_exit_{code}")
             if code != 0 or sig is not None:
                 if ex["stderr_len"] == 0:
                     viol("C09", "failure-atomic", "failed-without-diagnostic", ex, "non-zero exit with empty stderr")
                 for rel in sorted(set(before) | set(after)):
                     cls = file_class(rel)
                     if cls == "diagnostics-file":
+                        continue
+                    if cls == "root-manifest" and persist_failed:
+                        # C09 speaks of the SDK. Registering the SDK as a workspace member is the first
+                        # step of the persist phase; when a later step of that phase fails, the edited
+                        # workspace manifest stays behind. Recorded, not flagged.
+                        if rel in before and before[rel][0] != after.get(rel, [None])[0]:
+                            observe("persist_failure_left_workspace_manifest_edited")
                         continue
                     if rel in before and rel not in after:
                         viol("C09", "failure-atomic", f"failed-run-deleted-{cls}", ex, f"{rel} was deleted by a failing run",
@@ -119,7 +132,8 @@ def evaluate(world, run):
                         viol("C09", "success-writes-sdk", f"success-without-{file_class(rel)}", ex,
                              f"exit 0 but {rel} does not exist")
             # 5. verdict stability (reference = golden run: clean world, hash seed 0)
-            if g is not None and g["exit"] in (0, 1) and mode == "generate" and sig is None and code in (0, 1) and code != g["exit"]:
+            if (g is not None and g["exit"] in (0, 1) and mode == "generate" and sig is None and code in (0, 1)
+                    and code != g["exit"] and not expect_fail):
                 viol("C09", "verdict-stable", f"verdict-flip-{g['exit']}-to-{code}", ex,
                      f"generate({bp}) exited {g['exit']} in the clean world (hash seed 0) and {code} here "
                      f"(hash seed {step['hash_seed']}); stderr: {ex['stderr'][-300:]!r}")
@@ -140,7 +154,7 @@ def evaluate(world, run):
                     observe(f"exit_{code}_under_{fired['kind']}_{fault['phase']}")
 
         # ---------------------------------------------------------------- C10
-        accepted = g is not None and g["exit"] == 0
+        accepted = g is not None and g["exit"] == 0 and not expect_fail
         if g is None:
             observe("no_golden_for_state")
         crash_exec = faulted and fired and fired["kind"] == "crash"
